@@ -1011,7 +1011,7 @@ fn taus<F: PrimeField + FftField, M: Mdl<F>>(env: &Env<F, M>) -> Vec<M::E> {
 /// mirror of the engine's --only / --replay filter, used to skip expensive per-sweep precomputation
 fn wanted(ctx: &Ctx, name: &str) -> bool {
     if let Some((c, _)) = &ctx.replay {
-        if c != name {
+        if !algebra_mc::core::replay_matches(c, name) {
             return false;
         }
     }
